@@ -98,6 +98,7 @@ type Plan struct {
 	Events   []Event      `json:"events,omitempty"`
 	Faulty   bool         `json:"faulty,omitempty"` // connection-level faults are injected: oracles relax narrowly
 	Whitelist *WLPlan     `json:"whitelist,omitempty"`
+	Hist     []HistStep   `json:"hist,omitempty"`
 	Notes    []string     `json:"notes,omitempty"`
 }
 
